@@ -197,8 +197,22 @@ class Sh:
                         units.append(self.expr_unit("%s.%s(%s, %s)" % (A, mem, B, B), [a, b2], route()))
                     else:
                         units.append(self.expr_unit("%s.%s(%s)" % (A, mem, B), [a, b2], route()))
-                units.append(self.expr_unit("%s.set@1(%s)" % (A, B), [a, b2], route()))
-                units.append(self.expr_unit("%s.set@2(%s)" % (A, B), [a, b2], route()))
+                for rk in (1, 2, 3, 4):
+                    units.append(self.expr_unit("%s.set@%d(%s)" % (A, rk, B), [a, b2], route()))
+        # ternary built-ins and members: type-plausible leading arguments (so that the call gets past the first checks and, for
+        # replace/strpos/tokenize, really finds a match), the remaining argument from the whole pool in every provenance
+        seeds3 = ['replace("abcabc", "b", {Z})', "replace(v_sabc, \"b\", {Z})", 'replace({Z}, "b", "x")', 'replace("abc", {Z}, "x")', "substr(v_sabc, 1, {Z})", "substr(v_sabc, {Z}, 1)",
+                  "subraw(v_xabc, 1, {Z})", "subraw(v_xabc, {Z}, 2)", 'strpos(v_sabc, "b", {Z})', 'strpos("abcabc", {Z}, 1)', 'tokenize("a,b,,c", ",", {Z})', 'tokenize("a,b", {Z}, true)',
+                  "clamp(5, 1, {Z})", "clamp({Z}, 1, 9)", "clamp(5, {Z}, 9)", "clamp(2.5, {Z}, {Z})", "hex(255, {Z})", "round(2.567, {Z})", "raw(3, {Z})", "raw({Z}, 65)", "tab(2, {Z})", "tab({Z}, 1)",
+                  "tup(1, {Z})", "tup({Z}, {Z})", "v_ti.put(1, {Z})", "v_ti.put({Z}, 5)", "v_ti.insert(1, {Z})", "v_ts.insert({Z}, \"q\")", "v_tt.put(0, {Z})", "v_tr.put(0, {Z})", "v_tr.insert(0, {Z})",
+                  "v_sabc.put(1, {Z})", "v_sabc.insert({Z}, 66)", "v_xabc.put({Z}, 66)", "v_r1.set@2({Z})", "v_r3.set@3({Z})", "v_r3.set@4({Z})", "idf(v_r1).set@3({Z})", "idf(v_r3).set@4({Z})",
+                  "idf(v_r1)@3", "mod({Z}, 3)", "pow(2, {Z})", "atan2({Z}, 1)", "max({Z}, {Z})", "hash(v_sabc, {Z})", "lsubstr(v_sabc, {Z})", "rsubstr(v_sabc, {Z})", "chr({Z})", "b64dec({Z})", "int({Z})", "num({Z})", "str({Z})"]
+        base_names = ["sabc", "xabc", "ti", "ts", "tt", "tr", "r1", "r3"]
+        for sd in seeds3:
+            for z in names:
+                for pk in (0, 1, 2):
+                    if not take(): continue
+                    units.append(self.expr_unit(sd.replace("{Z}", prov_text(z, pk)), [z] + base_names, route()))
         # ternary by seeded sampling
         nt = 2500 if quick else 60000
         for _ in range(nt // n):
